@@ -186,6 +186,39 @@ func (ex *Exec) runBody(fr *Frame, st0 *State, pc0 Term) {
 					ex.oblige(fr, fmt.Sprintf("loop%d.nobreak", lp.ord), "early-exit", fr.blockPC, tFalse, b.Instrs[0].Pos())
 				}
 			}
+			// ... and a `break` that jumps straight to the loop's ordinary exit
+			// block: an edge that leaves the loop from a block of its BODY (not
+			// from the header, where the loop condition is tested)
+			for _, lp := range ci.loops {
+				if lp.spec == nil || !lp.spec.NoBreak || !lp.blocks[b] || b == lp.header {
+					continue
+				}
+				var entry *ssa.BasicBlock
+				for _, s := range lp.header.Succs {
+					if lp.blocks[s] && s != lp.header {
+						entry = s
+					}
+				}
+				if entry == nil || !(entry == b || entry.Dominates(b)) {
+					continue
+				}
+				for _, s := range b.Succs {
+					if lp.blocks[s] {
+						continue
+					}
+					// only exits to the block the header itself exits to (others are
+					// covered by the rule above)
+					toCommonExit := false
+					for _, hs := range lp.header.Succs {
+						if hs == s {
+							toCommonExit = true
+						}
+					}
+					if toCommonExit {
+						ex.oblige(fr, fmt.Sprintf("loop%d.nobreak", lp.ord), "break", And(fr.blockPC, edgeCond(b, s)), tFalse, b.Instrs[len(b.Instrs)-1].Pos())
+					}
+				}
+			}
 		}
 	}
 }
@@ -875,6 +908,20 @@ func (ex *Exec) instr(fr *Frame, st *State, in ssa.Instruction) {
 	case *ssa.RunDefers:
 		ex.runDefers(fr, st)
 	case *ssa.Go:
+		// starting a goroutine: contracts observe it as the event `oncall go`
+		// (argN = the arguments handed to the new goroutine); what the
+		// goroutine does to memory is not followed (total havoc)
+		if ex.contract != nil && fr.isTop && len(ex.contract.OnCalls) > 0 {
+			cm := x.Common()
+			var args []Val
+			var pt []types.Type
+			for _, a := range cm.Args {
+				args = append(args, ex.get(fr, a))
+				pt = append(pt, a.Type())
+			}
+			ex.fireOnCallTyped(fr, st, "go", args, pt, nil, nil, nil, true)
+			ex.fireOnCallTyped(fr, st, "go", args, pt, nil, nil, nil, false)
+		}
 		ex.unsup("go statement in " + fr.label)
 		ex.havocAll(st, "instr.go:742")
 	case *ssa.Send:
